@@ -7,6 +7,7 @@ exec 9>/tmp/seed_universe.lock; flock 9
 P=$1; shift
 [ -d /tmp/repo2 ] || git -C /repo worktree add --detach /tmp/repo2 HEAD >/dev/null 2>&1
 git -C /tmp/repo2 checkout -q -- . ; git -C /tmp/repo2 clean -fdq
+git -C /tmp/repo2 checkout -q --detach $(git -C /repo rev-parse HEAD)   # always the current /repo commit
 rsync -a --delete --exclude .git --exclude replays /verif/ /tmp/vf2/
 sed -i 's#=> /repo#=> /tmp/repo2#' /tmp/vf2/go/go.mod
 git -C /tmp/repo2 apply $P || { echo "patch does not apply"; exit 2; }
